@@ -7,7 +7,7 @@ CONSTANTS
   PurgeIds <- C_PurgeIds
   CommitIds <- C_CommitIds
   Users <- C_Users
-  Cfgs <- C_Cfgs
+  Cfgs <- C_CfgsReopen
   MaxCalls = 3
   MaxFlush = 2
   MaxReopen = 2
@@ -15,7 +15,7 @@ CONSTANTS
   MaxFaults = 0
   Concurrent = FALSE
   WithRejects = FALSE
-  ExportOneIn = 1
+  ExportOneIn = 100
   RecoveryCrashes = FALSE
   Batch = FALSE
 INVARIANTS NoViolation CacheCounterExact ChunksAbut DurableIsPrefix Export 
